@@ -4,6 +4,7 @@ package mrpc
 
 import (
 	"net"
+	"net/rpc"
 	"sync/atomic"
 )
 
@@ -19,4 +20,29 @@ func verifConn(serverAddr string, conn net.Conn) {
 	if fn := VerifConnFn.Load(); fn != nil {
 		(*fn)(serverAddr, conn)
 	}
+}
+
+// VerifRequestFn, when set, is called by an RPC server for every request it
+// has read (server address, service method) before the request is executed. A
+// harness blocks inside it to play a peer that accepts requests but answers
+// late.
+var VerifRequestFn atomic.Pointer[func(serverAddr string, serviceMethod string)]
+
+type verifServerCodec struct {
+	rpc.ServerCodec
+	addr string
+}
+
+func (c verifServerCodec) ReadRequestHeader(r *rpc.Request) error {
+	err := c.ServerCodec.ReadRequestHeader(r)
+	if err == nil {
+		if fn := VerifRequestFn.Load(); fn != nil {
+			(*fn)(c.addr, r.ServiceMethod)
+		}
+	}
+	return err
+}
+
+func verifServerCodecFor(serverAddr string, codec rpc.ServerCodec) rpc.ServerCodec {
+	return verifServerCodec{ServerCodec: codec, addr: serverAddr}
 }
